@@ -39,6 +39,7 @@ static uint64_t n_layout_sigs, n_points;
 static int max_depth_done, max_ndepth_done;
 static int max_level_seen;
 static int n_plan_items;
+static int default_universe;
 static vh_set_t seen, layout_seen, cursor_seen;
 
 typedef struct hist_s { unsigned char n; kop_t ops[MAXDEPTH]; } hist_t;
@@ -270,7 +271,7 @@ cursor_agrees(khist_t *h, ldb_iter_t *it, const kcursor_t *c, const kmodel_t *m,
       ldb_slice_t k = ldb_iter_key(it), v = ldb_iter_value(it);
       int ki = c->keys[c->pos];
       if (k.size == kv_keylen[ki] && (k.size == 0 || memcmp(k.data, kv_keys[ki], k.size) == 0) &&
-          kv_vcheck(v.data, v.size, m->vid[ki], m->sz[ki]))
+          kv_vcheck(v.data, v.size, m->vid[kv_rep_tab[ki]], m->sz[kv_rep_tab[ki]]))
         return 1;
     }
   }
@@ -698,7 +699,8 @@ main(int argc, char **argv) {
   drv_init(argc, argv);
   if (!kcfg_parse(&cfg, drv_opt("cfg", "B1")))
     vh_die("bad --cfg");
-  kv_set_universe((int)drv_opt_long("universe", 0));
+  default_universe = (int)drv_opt_long("universe", 0);
+  kv_set_universe(default_universe);
   alph = drv_opt("alphabet", "rw");
   build_alphabet(alph);
   build_targets();
@@ -742,6 +744,10 @@ main(int argc, char **argv) {
         snprintf(cb, sizeof(cb), "%.*s", (int)(e2 - p), p);
         if (!kcfg_parse(&cfg, cb))
           vh_die("bad cfg in replay");
+        if (cfg.universe >= 0) {
+          kv_set_universe(cfg.universe);
+          build_targets();
+        }
       }
     } else {
       snprintf(hb, sizeof(hb), "%s", drv.replay);
@@ -796,6 +802,8 @@ main(int argc, char **argv) {
           vh_die("bad cfg in plan: %s", item);
         if (d + root_prefix.n > MAXDEPTH || nd + root_prefix.n > MAXDEPTH)
           vh_die("plan depth too large");
+        kv_set_universe(cfg.universe >= 0 ? cfg.universe : default_universe);
+        build_targets();
         build_alphabet(item_alph);
         vs_free(&cursor_seen);
         vs_init(&cursor_seen);
